@@ -3,9 +3,11 @@
 -/
 import PdshVerif.Dsh.Exit
 import PdshVerif.Dsh.ExitSpec
+import PdshVerif.Base.CIntLemmas
 
 namespace PdshVerif.Dsh.Exit
 open PdshVerif
+open PdshVerif.CInt (isDigit_toNat isDigit_not_space scan_numeral toInt32_small)
 
 /-! ### the -S loop -/
 
@@ -156,58 +158,6 @@ theorem findSub_none_of_not_mem (c0 : Char) (m s : Str) (hs : c0 ∉ s) : findSu
     simp [findSub, List.isPrefixOf, this, ih hp]
 
 /-! ### atoi on a decimal numeral -/
-
-theorem isDigit_toNat {c : Char} (h : c.isDigit = true) : 48 ≤ c.toNat ∧ c.toNat ≤ 57 := by
-  have h' := Char.isDigit_iff_toNat.mp h
-  simpa using h'
-
-theorem isDigit_not_space {c : Char} (h : c.isDigit = true) : CInt.isSpace c = false := by
-  have h' := isDigit_toNat h
-  simp only [CInt.isSpace, Bool.or_eq_false_iff, Bool.and_eq_false_iff, decide_eq_false_iff_not]
-  refine ⟨?_, Or.inr (by omega)⟩
-  intro e; subst e; simp at h'
-
-theorem scan_numeral (ds rest : List Char) (hne : ds ≠ []) (hd : ∀ c ∈ ds, c.isDigit = true)
-    (hr : ∀ c, rest.head? = some c → c.isDigit = false) :
-    CInt.scan (ds ++ rest) = { neg := false, digits := ds, rest := rest } := by
-  obtain ⟨d, ds', rfl⟩ := List.exists_cons_of_ne_nil hne
-  have hdd : d.isDigit = true := hd d (by simp)
-  have hsp : CInt.isSpace d = false := isDigit_not_space hdd
-  have hm : d ≠ '-' := by intro e; subst e; have := isDigit_toNat hdd; simp at this
-  have hp : d ≠ '+' := by intro e; subst e; have := isDigit_toNat hdd; simp at this
-  have htw : ((d :: ds') ++ rest).takeWhile CInt.isDigit = d :: ds' := by
-    rw [List.takeWhile_append_of_pos (by simpa [CInt.isDigit] using hd)]
-    cases rest with
-    | nil => simp
-    | cons r rs =>
-      have : CInt.isDigit r = false := by simpa [CInt.isDigit] using hr r rfl
-      simp [this]
-  have hdw : ((d :: ds') ++ rest).dropWhile CInt.isDigit = rest := by
-    rw [List.dropWhile_append_of_pos (by simpa [CInt.isDigit] using hd)]
-    cases rest with
-    | nil => simp
-    | cons r rs =>
-      have : CInt.isDigit r = false := by simpa [CInt.isDigit] using hr r rfl
-      simp [this]
-  have h1 : ((d :: ds') ++ rest).dropWhile CInt.isSpace = (d :: ds') ++ rest := by
-    simp [hsp]
-  have h2 : CInt.signSplit ((d :: ds') ++ rest) = (false, (d :: ds') ++ rest) := by
-    simp only [List.cons_append]
-    unfold CInt.signSplit
-    split
-    · rename_i r heq; simp at heq; exact absurd heq.1 hm
-    · rename_i r heq; simp at heq; exact absurd heq.1 hp
-    · rfl
-  unfold CInt.scan
-  simp only [h1, h2, htw, hdw]
-  simp
-
-theorem toInt32_small (n : Nat) (h : n < CInt.I31) : CInt.toInt32 (n : Int) = n := by
-  unfold CInt.toInt32 CInt.U32 CInt.I31 at *
-  simp only
-  have : ((n : Int) % (4294967296 : Nat)) = n := by omega
-  rw [this]
-  split <;> omega
 
 /-- `atoi` of a canonical numeral followed by a non-digit is the number (below 2^31) -/
 theorem atoi_digits (n : Nat) (rest : List Char) (hn : n < CInt.I31)
